@@ -73,6 +73,10 @@ def _layers(sig, keys):
             out += [6] + keys["a"]
         elif t == "Ab":
             out += [6] + keys["b"]
+        elif t == "Az":
+            out += [6] + keys["z"]
+        elif t == "Af":
+            out += [6] + keys["f"]
         elif t == "Yrent":
             out += [6] + keys["rent"]
         elif t == "Yinst":
@@ -95,7 +99,7 @@ def _layers(sig, keys):
 
 def _expected_key(sig, keys):
     for t in sig:
-        m = {"Psys": "sys", "Pown": "own", "Aa": "a", "Ab": "b", "Yrent": "rent", "Yinst": "inst", "Yslot": "slot"}.get(t)
+        m = {"Psys": "sys", "Pown": "own", "Aa": "a", "Ab": "b", "Az": "z", "Af": "f", "Yrent": "rent", "Yinst": "inst", "Yslot": "slot"}.get(t)
         if m:
             return keys[m]
     return None
